@@ -67,9 +67,10 @@ def run(ctx):
         sessions.append(lines)
         meta.append([(f, 3, None), (f, None, sub)])
     # a depth limit given TOGETHER with other limits (a generous clock, movetime, nodes, movestogo, increments): the depth still binds
+    calm = [f for f in fens if sum(ch in "Qq" for ch in f.split()[0]) <= 2 and sum(ch.isalpha() for ch in f.split()[0]) <= 16] or fens   # no quiescence explosions
     for _ in range(50 if q else 600):
-        f = rng.choice(fens)
-        d = rng.choice([1, 2, 2, 3, 3, 4])
+        f = rng.choice(calm)
+        d = rng.choice([1, 2, 2, 3, 3, 4]) if sum(ch.isalpha() for ch in f.split()[0]) <= 10 else rng.choice([1, 2, 2, 3])
         extra = rng.choice(["wtime 3600000 btime 3600000", "wtime 3600000 btime 3600000 winc 1000 binc 1000", "wtime 3600000 btime 3600000 movestogo %d" % rng.choice([1, 10, 40]),
                             "movetime 3600000", "nodes 100000000", "wtime 1 btime 1", "%s 3600000" % ("wtime" if f.split()[1] == "w" else "btime"),
                             "%s 3600000" % ("btime" if f.split()[1] == "w" else "wtime")])
